@@ -240,18 +240,18 @@ Proof.
     assert (Hty : is_type st (pkg ++ ref) = true).
     { specialize (Hsame (length ref)). rewrite firstn_all in Hsame. apply Hsame.
       destruct ref; [contradiction|cbn [length]; lia]. }
-    cbv zeta. destruct (capture_same st pkg ctx _ _) eqn:Ec.
+    cbv zeta. destruct (capture_same st pkg ctx _ _ || is_statement_keyword _) eqn:Ec0.
     + unfold resolve_printed. cbn [pn_abs pn_name]. rewrite Hty. reflexivity.
-    + unfold resolve_printed. cbn [pn_abs pn_name].
+    + apply orb_false_iff in Ec0 as [Ec _]. unfold resolve_printed. cbn [pn_abs pn_name].
       pose proof (scope_lemma_same_package st pkg ctx ref Hne Hsame) as L.
       unfold context_ref_name in L. rewrite qname_eqb_refl in L. apply L.
       unfold no_capture. cbv zeta. intros k Hk.
       apply (existsb_seq_false _ _ _ Ec k). lia.
   - destruct (Hother eq_refl) as (Hpne & Hin & Hty).
     destruct ref_pkg as [|first prest]; [contradiction|]. cbn [hd].
-    destruct (capture_other st pkg ctx first) eqn:Ec.
+    destruct (capture_other st pkg ctx first || is_statement_keyword first) eqn:Ec0.
     + unfold resolve_printed. cbn [pn_abs pn_name]. rewrite Hty. reflexivity.
-    + unfold resolve_printed. cbn [pn_abs pn_name].
+    + apply orb_false_iff in Ec0 as [Ec _]. unfold resolve_printed. cbn [pn_abs pn_name].
       pose proof (scope_lemma_other_package st pkg ctx (first :: prest) ref first prest eq_refl Hne Ep Hin Hty) as L.
       unfold context_ref_name in L. rewrite Ep in L. apply L.
       unfold capture_other in Ec. apply orb_false_iff in Ec as [E1 E2]. split.
@@ -265,10 +265,10 @@ Lemma safe_never_empty st ctx_pkg ctx ref_pkg ref : ref <> [] ->
   pn_name (context_ref_name_safe st ctx_pkg ctx ref_pkg ref) <> [].
 Proof.
   intro Hne. unfold context_ref_name_safe. destruct (qname_eqb ctx_pkg ref_pkg).
-  - cbv zeta. destruct (capture_same _ _ _ _ _); cbn [pn_name].
+  - cbv zeta. destruct (capture_same _ _ _ _ _ || is_statement_keyword _); cbn [pn_name].
     + intro E. apply app_eq_nil in E as [_ E]. contradiction.
     + destruct (strip_common_spec ctx ref Hne) as (_ & _ & _ & _ & H). exact H.
-  - destruct (capture_other _ _ _ _); cbn [pn_name]; intro E; apply app_eq_nil in E as [_ E]; contradiction.
+  - destruct (capture_other _ _ _ _ || is_statement_keyword _); cbn [pn_name]; intro E; apply app_eq_nil in E as [_ E]; contradiction.
 Qed.
 
 (* ---------- where the hypotheses are needed: witnesses ------------------------------------- *)
@@ -331,6 +331,34 @@ Lemma marshal_arms_agree :
    ("Fixed64Kind", "strconv.FormatUint"); ("FloatKind", "fFloat"); ("DoubleKind", "fFloat");
    ("BytesKind", "prototextString"); ("EnumKind", "strconv.FormatInt")].
 Proof. vm_compute. reflexivity. Qed.
+
+(* the keyword table of the model is the Go map (fix 5e02f98), and contextRefName consults it in both branches *)
+Lemma statement_keywords_agree :
+  statement_keywords = PrintGen.statement_keywords /\ PrintGen.statement_keyword_checks = 2%N.
+Proof. split; vm_compute; reflexivity. Qed.
+
+(* the scalar type names and the three words the file parser dispatches on are statement keywords *)
+Lemma keyword_table_covers :
+  forallb is_statement_keyword
+    [ [100;111;117;98;108;101]; [102;108;111;97;116]; [105;110;116;51;50]; [105;110;116;54;52];
+      [117;105;110;116;51;50]; [117;105;110;116;54;52]; [115;105;110;116;51;50]; [115;105;110;116;54;52];
+      [102;105;120;101;100;51;50]; [102;105;120;101;100;54;52]; [115;102;105;120;101;100;51;50];
+      [115;102;105;120;101;100;54;52]; [98;111;111;108]; [115;116;114;105;110;103]; [98;121;116;101;115];
+      [114;101;112;101;97;116;101;100]; [111;112;116;105;111;110;97;108]; [111;112;116;105;111;110] ] = true.
+Proof. vm_compute. reflexivity. Qed.
+
+(* a relative printed name does not start with a statement keyword *)
+Lemma safe_head_not_keyword st ctx_pkg ctx ref_pkg ref :
+  (qname_eqb ctx_pkg ref_pkg = false -> ref_pkg <> []) ->
+  pn_abs (context_ref_name_safe st ctx_pkg ctx ref_pkg ref) = false ->
+  is_statement_keyword (hd [] (pn_name (context_ref_name_safe st ctx_pkg ctx ref_pkg ref))) = false.
+Proof.
+  unfold context_ref_name_safe. destruct (qname_eqb ctx_pkg ref_pkg); intro Hne.
+  - cbv zeta. destruct (capture_same _ _ _ _ _ || is_statement_keyword _) eqn:E; cbn [pn_abs pn_name]; [discriminate|].
+    intros _. apply orb_false_iff in E as [_ E]. exact E.
+  - destruct (capture_other _ _ _ _ || is_statement_keyword _) eqn:E; cbn [pn_abs pn_name]; [discriminate|].
+    intros _. apply orb_false_iff in E as [_ E]. destruct ref_pkg as [|a r]; [exfalso; exact (Hne eq_refl eq_refl)|exact E].
+Qed.
 
 Lemma strip_guard_agrees : PrintGen.strip_guard = "<= 1".
 Proof. vm_compute. reflexivity. Qed.
